@@ -25,12 +25,20 @@ CFG = {
                   "refresh set, then whatever well-formed grid the terminal shows), app_screen_is_last_write (that screen = the writes of Spec.Window that hit each cell, "
                   "last wins, never-written blank), app_cursor / app_cursor_always (cursor as last requested after every frame, also after a size change to ANY size — an empty screen included — whatever the terminal did with the cursor) / showCursor_position, frame_displays / history_displays_clip (no 'glyph fits' hypothesis since the F02 "
                   "repair), frame_displays_current, sixel_cell_not_drawn, dropped_image_rewritten, flush_epilogue, cursor_as_requested, and for the renderer as it is now with image cells allowed: flush_epilogue_current / flush_resets_pen_current / "
-                  "cursor_as_requested_current (pen reset, hyperlink closed, sync balanced, cursor as requested after EVERY frame of renderFrameS — only the grid clause of screens with image cells is open); on a terminal that clusters graphemes (mode 2027): "
+                  "cursor_as_requested_current (pen reset, hyperlink closed, sync balanced, cursor as requested after EVERY frame of renderFrameS) and, round 4, the grid clause for screens WITH image cells: "
+                  "frame_displays_images / frame_displays_images_full_holds (all grids, capability sets, width oracles, diff frames and refreshes, image cells anywhere — also over the head or the continuation of a wide glyph the "
+                  "terminal still shows: nothing terminal-specific relied on and the terminal shows expectedC at every position that is not 'unknown pixels' = an image cell not covered by a wide glyph to its left; "
+                  "the statement says what an image cell is — ImageCellsAsPlaced, what Sixel.Draw places — and images_need_placed_cells shows the round-3 wording without it was false of the model); "
+                  "hyperlink parameters (F112b fixed): osc8_params_no_semicolon (no OSC 8 of the pen delta carries a ';' in its parameter field), model_field_is_spec_field, valid_params_shown_whole; on a terminal that clusters graphemes (mode 2027): "
                   "frame_displays_clustering_tight under the explicit hypothesis NoJoinNeighbours (no two horizontally consecutive shown cells of a row join; frame_displays_clustering for the coarser NoJoinRows), render_no_adjacent_join_tight (every frame of the current renderer, "
                   "image cells included), clustering_terminal_agrees, and no_join_needed (decide: the hypothesis is necessary, finding F112d); stream_*_is_sysStep / oracle_screen_is_model_screen "
                   "(the op-level stream runs sysStep, and its oracle's reference screen is the model's buffer). Structural tie: the statement "
                   "skeletons of render/showCursor/advance/Write/WriteString/Flush regenerated from the source — locals printed under their role names, so renaming a local does not alarm — equal the pinned transcription (facts_render, facts_writer, "
-                  "render_fully_recognised) and the attribute delta is the interpretation of the extracted tables (attrToks_from_source, penDelta_order). Behavioural tie: "
+                  "render_fully_recognised) and the attribute delta is the interpretation of the extracted tables (attrToks_from_source, penDelta_order). Round 4 — interpreted, not only pinned (Model/RenderInterp "
+                  "executes the regenerated lines; an unknown text sets Env.unknown): advance_body_eq_model, showCursor_body_eq_model, sixel_body_eq_model, clip_body_eq_model, unchanged_body_eq_model, reposition_body_eq_model, "
+                  "hyperlink_body_eq_model, glyph_body_eq_model, written_cell_body_eq_model (the whole written-cell path of render() run from the text = tokens / pen / flags / dirty / last of the model), "
+                  "render_written_branch_eq_interp / render_sixel_branch_eq_interp / render_unchanged_branch_eq_interp (every branch of the model's cell loop at a non-skipped cell continues with the interpreted state), "
+                  "render_frame_body_eq_model (pointer shape, trailing OSC 8 close, cursor show), flush_from_source (the writer). Behavioural tie: "
                   "token-for-token comparison with the bytes the real code writes, in the op-level stream also cell-for-cell comparison of the buffer Model.App computes from the draw ops with the real next-frame buffer; "
                   "the property itself is evaluated on the real bytes through Spec.Display, in the op-level stream against the Spec.Window fold of writes (no use of the window model).",
     "level_note": "Left to the application/terminal as explicit hypotheses (each shown necessary by a decide-checked witness): cells given to SetCell/Fill have width >= 0 and an "
@@ -38,10 +46,13 @@ CFG = {
                   "PrintTruncate; a space has width 1; a visible cursor is inside the screen at Render (Window.ShowCursor does not clip: Witness/C11ShowCursor); after a size "
                   "change the terminal shows a well-formed grid. On a clustering terminal additionally: no two neighbouring shown cells join (NoJoinNeighbours; render() writes neighbouring cells back to back — F112d; a CUP between them was evaluated and rejected: it does not help on terminals that cluster against the cell left of the cursor). "
                   "F111c (Wrap put the halves of one cluster — a flag beginning a later Segment — into two cells, which such a terminal shows as one glyph; found by the op-level stream) is fixed in /repo 1f9a9ad. app_history_displays is stated over the plain terminal; app_history_displays_clustering (Props/C01AppCluster) is its form for the clustering terminal, with RunNoJoin (NoJoinNeighbours of the screen at every frame) as the extra hypothesis. Validated by correspondence only: "
-                  "that the Lean loops equal the Go loops beyond their pinned statement structure; screens WITH image cells (oracle treats image cells as don't-care; the "
-                  "display theorems assume none; the full statement frame_displays_images_full is written down with the proved image-free part frame_displays_images_partial and two decide-checked instances with image cells). Placement loops of render() are C20's. Spec.Display is a model of a standards-conforming terminal, not a physical one.",
+                  "that the loop FRAME of render() (for col / col += skip and the two nulling loops = the model's skip/track recursion; the inner lines of the colour, attribute and underline blocks) equals the Go code beyond its pinned statement structure "
+                  "— every other statement of the cell loop is executed from the extracted text (Props/C01Body). Screens WITH image cells: the one-frame theorem is proved (frame_displays_images) from a terminal that shows the previous frame everywhere; "
+                  "a history-level statement through frames with image cells (the terminal then agrees with last only outside the image cells) is open; app_history_displays assumes no image cells (the draw ops of Model.App cannot make one). Placement loops of render() are C20's. Spec.Display is a model of a standards-conforming terminal, not a physical one.",
     "assumptions": ["terminal width of a raw-printed grapheme equals Vaxis's characterWidth under the same capability set (C07 width method)",
-                    "explicit cell widths given by the application are either 0 (auto) or correct, or any width > 1 when OSC 66 is available"],
-    "technique": "Lean 4 proof (invariants over frame histories, refinement of the repaired loop to the round-1 loop, composition with the C11 window model) + extractor "
-                 "(statement skeletons, tables) + differential correspondence",
+                    "explicit cell widths given by the application are either 0 (auto) or correct, or any width > 1 when OSC 66 is available",
+                    "Style.Hyperlink and the part of Style.HyperlinkParams before its first ';' contain no byte that ends an OSC string early (ESC, BEL, ST, C0 controls): strings are opaque tokens of the model, the byte lexer Spec.Tokenize is trusted; "
+                    "a ';' inside HyperlinkParams is handled (F112b: the parameter field is written up to it)"],
+    "technique": "Lean 4 proof (invariants over frame histories with a don't-care mask at image cells, refinement of the repaired loop to the round-1 loop, composition with the C11 window model) + extractor "
+                 "(statement skeletons executed by a small interpreter, tables) + differential correspondence",
 }
